@@ -19,15 +19,15 @@ package include
 // PfOK: a parsed file carries as many parse errors as Parse returned with its journal (the pairing of journal and
 // errors is kept by storing them as one struct value; the ghost count catches a dropped or foreign error list).
 //@ pred PfOK(f parsedFile) := f.journal != nil && len(f.parseErrs) == nErrs(f.journal)
-// CacheOK (C11): every remembered file is the parse of the current text of its path in the (ghost) file system.
-//@ pred CacheOK(l *Loader) := l != nil && l.cache != nil && (forall q string :: {has(l.cache, q)} has(l.cache, q) ==> PfOK(l.cache[q]) && parsedFrom(l.cache[q].journal) == fsread(q))
-// CacheOKExcept: the same for every path but p (the state after the file at p changed on disk).
-//@ pred CacheOKExcept(l *Loader, p string) := l != nil && l.cache != nil && (forall q string :: {has(l.cache, q)} has(l.cache, q) && q != p ==> PfOK(l.cache[q]) && parsedFrom(l.cache[q].journal) == fsread(q))
+// LCacheOK (C11): every remembered file is the parse of the current text of its path in the (ghost) file system.
+//@ pred LCacheOK(l *Loader) := l != nil && l.cache != nil && (forall q string :: {has(l.cache, q)} has(l.cache, q) ==> PfOK(l.cache[q]) && parsedFrom(l.cache[q].journal) == fsread(q))
+// LCacheOKExcept: the same for every path but p (the state after the file at p changed on disk).
+//@ pred LCacheOKExcept(l *Loader, p string) := l != nil && l.cache != nil && (forall q string :: {has(l.cache, q)} has(l.cache, q) && q != p ==> PfOK(l.cache[q]) && parsedFrom(l.cache[q].journal) == fsread(q))
 
 //@ func (*Loader).loadWithContent
 //@   props C09 C10 C11
-//@   requires CacheOK(l) && visited != nil && !has(visited, path)
-//@   ensures CacheOK(l)
+//@   requires LCacheOK(l) && visited != nil && !has(visited, path)
+//@   ensures LCacheOK(l)
 //@   ensures [C10:stack] forall p string :: visited[p] == old(visited[p])
 //@   ensures [grow_only] forall p string :: old(has(visited, p)) ==> has(visited, p)
 //@   ensures [C09:primary_path] result0 != nil ==> result0.PrimaryPath == path
@@ -35,8 +35,8 @@ package include
 
 //@ func (*Loader).loadParsed
 //@   props C09 C10 C11
-//@   requires CacheOK(l) && visited != nil && !has(visited, path) && PfOK(file)
-//@   ensures CacheOK(l)
+//@   requires LCacheOK(l) && visited != nil && !has(visited, path) && PfOK(file)
+//@   ensures LCacheOK(l)
 //@   ensures len(result1) == 0 || fresh(result1)
 //@   ensures [C10:stack] forall p string :: visited[p] == old(visited[p])
 //@   ensures [grow_only] forall p string :: old(has(visited, p)) ==> has(visited, p)
@@ -55,7 +55,7 @@ package include
 //@   loop 2 invariant len(errors) == rangeindex + 1 && (forall i int :: {errors[i]} 0 <= i && i <= rangeindex ==> errors[i].Kind == ErrorParseError && errors[i].Path == path && errors[i].Message == file.parseErrs[i].Message)
 //@   loop 2 decreases len(file.parseErrs) - rangeindex
 //@   loop 3 invariant 0 - 1 <= rangeindex && rangeindex <= len(journal.Includes) - 1 && journal != nil
-//@   loop 3 invariant visited[path] && has(visited, path) && CacheOK(l)
+//@   loop 3 invariant visited[path] && has(visited, path) && LCacheOK(l)
 //@   loop 3 invariant result != nil && result.Files != nil && fresh(result) && fresh(result.Files)
 //@   loop 3 invariant forall p string :: p != path ==> visited[p] == old(visited[p])
 //@   loop 3 invariant forall p string :: old(has(visited, p)) ==> has(visited, p)
@@ -67,7 +67,7 @@ package include
 //@   loop 3 invariant forall i int :: {errors[i]} 0 <= i && i < len(file.parseErrs) ==> errors[i].Message == file.parseErrs[i].Message
 //@   loop 3 decreases len(journal.Includes) - rangeindex
 //@   loop 4 invariant 0 - 1 <= rangeindex && rangeindex <= len(matches) - 1 && journal != nil
-//@   loop 4 invariant visited[path] && has(visited, path) && CacheOK(l)
+//@   loop 4 invariant visited[path] && has(visited, path) && LCacheOK(l)
 //@   loop 4 invariant result != nil && result.Files != nil && fresh(result) && fresh(result.Files)
 //@   loop 4 invariant forall p string :: p != path ==> visited[p] == old(visited[p])
 //@   loop 4 invariant forall p string :: old(has(visited, p)) ==> has(visited, p)
@@ -81,9 +81,9 @@ package include
 
 //@ func (*Loader).loadSingleInclude
 //@   props C10 C11
-//@   requires CacheOK(l) && visited != nil && result != nil && result.Files != nil
+//@   requires LCacheOK(l) && visited != nil && result != nil && result.Files != nil
 //@   requires [files_entered] forall p string :: has(result.Files, p) ==> has(visited, p)
-//@   ensures CacheOK(l)
+//@   ensures LCacheOK(l)
 //@   ensures [cycle_no_effect] old(has(visited, includePath)) ==> (forall p string :: has(result.Files, p) <==> old(has(result.Files, p)))
 //@   ensures [C10:cycle_exact] old(has(visited, includePath)) ==> (len(result0) == ite(old(visited[includePath]), 1, 0))
 //@   ensures [C10:cycle_on_directive] old(visited[includePath]) ==> result0[0].Kind == ErrorCycleDetected && result0[0].Range == incRange && result0[0].Path == includePath
@@ -106,8 +106,8 @@ package include
 
 //@ func (*Loader).InvalidateFile
 //@   props C11
-//@   requires [C11:changed_file] CacheOKExcept(l, path)
-//@   ensures [C11:coherent_again] CacheOK(l)
+//@   requires [C11:changed_file] LCacheOKExcept(l, path)
+//@   ensures [C11:coherent_again] LCacheOK(l)
 //@   ensures [C11:dropped] !has(l.cache, path)
 //@   ensures [C11:others_kept] forall q string :: q != path ==> (has(l.cache, q) <==> old(has(l.cache, q)))
 //@   modifies l.cache[*]
@@ -115,7 +115,7 @@ package include
 //@ func (*Loader).ClearCache
 //@   props C11
 //@   requires l != nil
-//@   ensures [C11:coherent_again] CacheOK(l)
+//@   ensures [C11:coherent_again] LCacheOK(l)
 //@   ensures [C11:empty] forall q string :: !has(l.cache, q)
 //@   modifies l.cache
 
